@@ -30,7 +30,7 @@ theorem trivialMerge_const {α β : Type} [DecidableEq β] (l : List α) (x : β
   · exact h.symm
   · simp [ind, h] at hw
 
-theorem mergeEntry_of_trivial' (sc : SameChange) (cm : ContentMerge) (recur : List Tree → List Tree) (vals : MVal)
+theorem mergeEntry_of_trivial (sc : SameChange) (cm : ContentMerge) (recur : List Tree → List Tree) (vals : MVal)
     (v : Option Value) (h : trivialMerge vals sc = some v) : mergeEntry sc cm recur vals = .resolved v := by
   simp [mergeEntry, h]
 
@@ -139,7 +139,7 @@ theorem valueAt_mergeTreesF (sc : SameChange) (cm : ContentMerge) (f : Nat) (ts 
     have : ts.map (·.lookup n) = ts.map (fun _ => (none : Option Value)) :=
       List.map_congr_left (fun t ht => lookup_none_of_not_mem_allNames hn ht)
     simp only [E, this]
-    exact mergeEntry_of_trivial' _ _ _ _ _ (trivialMerge_const ts none hodd sc)
+    exact mergeEntry_of_trivial _ _ _ _ _ (trivialMerge_const ts none hodd sc)
   simp only [mergeTreesF, hE, assemble]
   split
   · next hall =>
